@@ -24,7 +24,9 @@
 EXTENDS Naturals, Sequences, FiniteSets, TLC
 
 CONSTANTS NCalls,       \* calls 0 .. NCalls-1, numbered in the order they are sent
-          OnErrorBody   \* "skip" | "fail" | "leave"
+          OnErrorBody,  \* "skip" | "fail" | "leave"
+          OnTimeout     \* "keep" = the code as pinned: a call that waited too long gives up, the connection stays;
+                        \* "close" = the cached client of that server is closed on a timeout (seeded change C17-J)
 
 Calls == 0..NCalls - 1
 
@@ -33,7 +35,7 @@ VARIABLES sent,      \* calls written to the connection so far (a prefix of Call
           wire,      \* frames on their way to the client: <<"hdr", seq, err>> | <<"body">>
           rd,        \* reader: "hdr" | "body" | "dead"
           cur,       \* the header the reader holds: [seq, err]
-          outcome    \* [call -> "none" | "reply" | "refused" | "connerr" | "phantom"]
+          outcome    \* [call -> "none" | "reply" | "refused" | "connerr" | "phantom" | "timeout"]
 vars == <<sent, served, wire, rd, cur, outcome>>
 
 Pending == {c \in sent : outcome[c] = "none"}
@@ -89,8 +91,18 @@ ReadBody ==
           /\ Complete(cur.seq, IF Head(wire)[1] = "body" /\ served[cur.seq] = "reply" THEN "reply" ELSE "phantom")
   /\ UNCHANGED <<sent, served, cur>>
 
+\* internalRoute: RpcTimeout fires for a call that is still pending (its answer, if it comes, finds no
+\* pending call and is discarded by net/rpc)
+Timeout(c) ==
+  /\ c \in Pending /\ rd # "dead"
+  /\ IF OnTimeout = "close"
+     THEN /\ rd' = "dead" /\ wire' = <<>>
+          /\ outcome' = [d \in Calls |-> IF d = c THEN "timeout" ELSE IF d \in Pending THEN "connerr" ELSE outcome[d]]
+     ELSE /\ outcome' = [outcome EXCEPT ![c] = "timeout"] /\ UNCHANGED <<rd, wire>>
+  /\ UNCHANGED <<sent, served, cur>>
+
 Next ==
-  \/ Send \/ ReadHeader \/ ReadBody
+  \/ Send \/ ReadHeader \/ ReadBody \/ (\E c \in Calls : Timeout(c))
   \/ \E c \in Calls, how \in {"reply", "refused"} : Serve(c, how)
 Spec == Init /\ [][Next]_vars /\ WF_vars(ReadHeader) /\ WF_vars(ReadBody)
 
@@ -98,7 +110,7 @@ Spec == Init /\ [][Next]_vars /\ WF_vars(ReadHeader) /\ WF_vars(ReadBody)
 TypeOK ==
   /\ sent \subseteq Calls /\ rd \in {"hdr", "body", "dead"}
   /\ \A c \in Calls : served[c] \in {"none", "reply", "refused"}
-  /\ \A c \in Calls : outcome[c] \in {"none", "reply", "refused", "connerr", "phantom"}
+  /\ \A c \in Calls : outcome[c] \in {"none", "reply", "refused", "connerr", "phantom", "timeout"}
 
 \* a call is completed only by the answer the server gave to that call
 OwnAnswer == \A c \in Calls : outcome[c] \in {"reply", "refused"} => outcome[c] = served[c]
